@@ -156,13 +156,13 @@ dump_node(const struct lysc_node *n, const char *prefix)
 {
     char path[2048];
     const struct lysc_node *c;
-    const char *kind = lys_nodetype2str(n->nodetype), *units = NULL;
+    const char *kind = (n->nodetype == LYS_INPUT) ? "input" : (n->nodetype == LYS_OUTPUT) ? "output" : lys_nodetype2str(n->nodetype), *units = NULL;
     struct lysc_when **whens = lysc_node_when(n);
     unsigned long min = 0, max = 0;
     LY_ARRAY_COUNT_TYPE u;
 
     snprintf(path, sizeof path, "%s/%s:%s", prefix, n->module->name, n->name);
-    printf(" %s|%s|%c|%d|%c|%c|", path, kind, (n->flags & LYS_CONFIG_W) ? 'W' : 'R',
+    printf(" %s|%s|%c|%d|%c|%c|", path, kind, (n->flags & LYS_CONFIG_W) ? 'W' : (n->flags & LYS_CONFIG_R) ? 'R' : '-',
             (n->flags & LYS_STATUS_CURR) ? 1 : (n->flags & LYS_STATUS_DEPRC) ? 2 : (n->flags & LYS_STATUS_OBSLT) ? 3 : 0,
             (n->flags & LYS_MAND_TRUE) ? 'M' : '-', ((n->nodetype == LYS_CONTAINER) && (n->flags & LYS_PRESENCE)) ? 'P' : '-');
     if (n->nodetype == LYS_LEAF) {
@@ -188,7 +188,15 @@ dump_node(const struct lysc_node *n, const char *prefix)
     if (n->nodetype & (LYS_LEAF | LYS_LEAFLIST)) dump_type(((const struct lysc_node_leaf *)n)->type); else fputs("-", stdout);
     if (units) printf("|=%s", units); else fputs("|~", stdout);
     printf("|%u", (unsigned)LY_ARRAY_COUNT(whens));
+    if (n->nodetype & (LYS_RPC | LYS_ACTION)) {
+        /* the two fixed children of an operation */
+        dump_node(&((const struct lysc_node_action *)n)->input.node, path);
+        dump_node(&((const struct lysc_node_action *)n)->output.node, path);
+        return;
+    }
     LY_LIST_FOR(lysc_node_child(n), c) dump_node(c, path);
+    LY_LIST_FOR((const struct lysc_node *)lysc_node_actions(n), c) dump_node(c, path);
+    LY_LIST_FOR((const struct lysc_node *)lysc_node_notifs(n), c) dump_node(c, path);
 }
 
 int
@@ -235,6 +243,8 @@ main(void)
 
                         printf(" M:%s", ms[i]->name);
                         LY_LIST_FOR(ms[i]->compiled ? ms[i]->compiled->data : NULL, c) dump_node(c, "");
+                        LY_LIST_FOR(ms[i]->compiled ? (const struct lysc_node *)ms[i]->compiled->rpcs : NULL, c) dump_node(c, "");
+                        LY_LIST_FOR(ms[i]->compiled ? (const struct lysc_node *)ms[i]->compiled->notifs : NULL, c) dump_node(c, "");
                     }
                     vp_end();
                 }
